@@ -350,7 +350,7 @@ func (c *Chain) Ctx() sdk.Context {
 
 // ReadCtx is a throw-away cached context over the last committed state.
 func (c *Chain) ReadCtx() sdk.Context {
-	h := tmproto.Header{ChainID: c.Name, Height: c.App.LastBlockHeight(), Time: c.LastTime}
+	h := tmproto.Header{ChainID: c.Name, Height: c.App.LastBlockHeight(), Time: c.LastTime, ProposerAddress: c.Vals.Proposer.Address}
 	if c.inBlock {
 		h = c.cur
 		ctx := c.App.BaseApp.NewContext(false, h)
@@ -527,3 +527,6 @@ func (c *Chain) SortedAccountNames() []string {
 	sort.Strings(out)
 	return out
 }
+
+// InBlock reports whether a block is open.
+func (c *Chain) InBlock() bool { return c.inBlock }
